@@ -406,12 +406,32 @@ def replay(ctx, path):
     return True
 
 
+def run_wakeups(ctx, exe, which=("consumers", "producers")):
+    """lost-wakeup scenarios: K callers blocked, K releasing operations back to back; nobody may stay blocked"""
+    trials = 60 if ctx.tier == "thorough" else 12
+    rc, out = ctx.run_exe(exe, ["wakeups", trials], timeout=600)
+    ctx.evaluations += trials * 4
+    ctx.count("wakeup-scenarios", trials * 4)
+    m = re.search(r"LOST-WAKEUP kind=(\w+) (.*)", out)
+    if m and m.group(1) in which:
+        kind = m.group(1)
+        if kind == "consumers":
+            ctx.violation("queue-lost-wakeup-consumer", "accepted items sit in the open queue while a consumer blocked in get() is never woken "
+                          "(K consumers blocked on an empty queue, K puts back to back)", {"harness": "c15_harness wakeups", "observed": m.group(0)})
+        else:
+            ctx.violation("queue-lost-wakeup-producer", "a producer blocked in put() on a full queue is never woken although room was made "
+                          "(K producers blocked, K gets back to back)", {"harness": "c15_harness wakeups", "observed": m.group(0)})
+    elif rc != 0 or ("wakeups ok" not in out and not m):
+        ctx.tie_broken("c15-wakeups-harness", f"exit {rc}: {out[-200:]}")
+
+
 def run(ctx):
     if ctx.replay_in and replay(ctx, ctx.replay_in):
         return
     exe = ctx.build_cpp("c15_harness", "c15.cpp")
     if exe:
         run_seq(ctx, exe)
+        run_wakeups(ctx, exe)
     run_stress(ctx)
     run_tsan(ctx)
     # a lock missing according to the source audit, with the model-level schedule as the replay if TSan was silent
